@@ -322,12 +322,12 @@ def hofPairs (c : ICtx) (a : Nat) : Env → Seq → List (Item × Item) → IM (
 
 /-- the key of every item (the real code calls the key function inside every comparison; the
 model calls it once per item, in order — justified by `call_repeatable`, see docs/C16.md) -/
-def hofKeys (c : ICtx) (a : Nat) : Env → List (Item × List Int) → Seq → IM (List (Item × List Int) × Env)
+def hofKeys (ci : Bool) (c : ICtx) (a : Nat) : Env → List (Item × List Int) → Seq → IM (List (Item × List Int) × Env)
   | D, acc, [] => pure (acc, D)
   | D, acc, x :: xs => do
     let r ← callFn cfg ev c D a [[x]]
-    let k ← IM.lift (keyOf r.1)
-    hofKeys c a r.2 (acc ++ [(x, k)]) xs
+    let k ← IM.lift (keyOf ci r.1)
+    hofKeys ci c a r.2 (acc ++ [(x, k)]) xs
 
 /-- `sorted(items, key=cmp_to_key(deep_compare ∘ key))`: CPython's stable sort, here `List.mergeSort` -/
 def sortByKey (ks : List (Item × List Int)) : Seq :=
@@ -372,6 +372,10 @@ def step (e : Expr) (c : ICtx) (D : Env) : IM (Seq × Env) :=
   | .lit n => pure ([.int n], D)
   | .dlit n => pure ([.dec n], D)
   | .elit n => pure ([.dbl n], D)
+  | .slit cs => pure ([.str cs], D)
+  | .nanlit => pure ([.nan], D)
+  | .inflit p => pure ([.inf p], D)
+  | .negzlit => pure ([.negz], D)
   | .inst t e => do
     let v ← ev e c D
     pure ([.bool (match v.1 with | [x] => t.has x | _ => false)], v.2)
@@ -483,11 +487,13 @@ def step (e : Expr) (c : ICtx) (D : Env) : IM (Seq × Env) :=
     if xs.1.isEmpty then pure ([], xs.2) else do
       let ys ← ev s2 c xs.2
       hofPairs cfg ev c fa.1 ys.2 [] (xs.1.zip ys.1)
-  | .sortK s f => do
+  | .sortK ci s f => do
+    -- `ci`: the collation in force is html-ascii-case-insensitive (the collation argument, or for `()`
+    -- the parser's default collation — resolved by the harness from the parser it evaluates with)
     let fa ← funArgCheck ev c D f 1
     let xs ← ev s c fa.2
     if xs.1.length < 2 then pure (xs.1, xs.2) else do
-      let ks ← hofKeys cfg ev c fa.1 xs.2 [] xs.1
+      let ks ← hofKeys cfg ev ci c fa.1 xs.2 [] xs.1
       -- `deep_compare`: a boolean key component against a numeric one raises XPTY0004
       if keysUniform (ks.1.map (·.2)) then pure (sortByKey ks.1, ks.2) else IM.throw .XPTY0004
   | .apply f ms => do
